@@ -79,10 +79,7 @@ def _payload(h, name="payload", min_len=0, max_len=65533):
     """An arbitrary payload of arbitrary (symbolic) length and its length, which is also the announced
     message_length: the receive path reads exactly message_length payload bytes."""
     buf = h.abytes(name, min_len=min_len, max_len=max_len)
-    n = h.length(buf)
-    if h.symbolic:
-        h.path.inputs[name + "_length"] = n  # named so that counter-models are minimised in the length
-    return buf, n
+    return buf, h.length(buf)
 
 
 def _str_bytes(h, s):
@@ -340,14 +337,15 @@ def xff11_roundtrip_one(h):
         ability_wire_meaning(h, ab, b, "wire: ")
 
 
-_COUNT_NAME_BYTES = [16, 0, 5, 9, 1, 12, 3, 7]
+_COUNT_NAME_BYTES = [16, 0, 5, 9, 1, 12, 3, 7, 2, 15, 4, 8, 6, 10, 11, 13]
 
 
-@oset("at5.xFF11.roundtrip.counts-0-8", ["C03"], ABILITY_FNS)
+@oset("at5.xFF11.roundtrip.counts-0-16", ["C03"], ABILITY_FNS)
 def xff11_roundtrip_counts(h):
-    """All repeat counts 0..8 (the AirTouch 5 supports up to 8 ACs... the index byte allows 16), every
-    record fully symbolic; the name length of record i is fixed (16, 0, 5, 9, 1, 12, 3, 7 bytes)."""
-    n = h.choice("count", list(range(0, 9)))
+    """All repeat counts 0..16 (the AC index byte is documented as 0-15; an AirTouch 5 has at most 8 ACs),
+    every record fully symbolic; the name of record i has a fixed UTF-8 length (16, 0, 5, 9, 1, 12, ...
+    bytes: records are encoded / decoded independently, every name length is covered by the one-record set)."""
+    n = h.choice("count", list(range(0, 17)))
     msg = h.new(XABL + ":AcAbilityMessage", [gen_ac_ability(h, i, _COUNT_NAME_BYTES[i]) for i in range(n)])
     # an empty ability message is, on the wire, the request for all ACs (no data): same message id
     roundtrip_plain(h, XABL + ":AcAbilityEncoder", XABL + ":AcAbilityDecoder", msg, at5_ext_subheader, ID_ABILITY,
@@ -930,7 +928,12 @@ def _sample_messages(h):
     }
 
 
-@oset("at5.x1F.registry-wiring", ["C03", "C17"], [REGISTRY + ":<module>"], kind="frame")
+@oset("at5.x1F.registry-wiring", ["C03", "C17"],
+      [COMMS + ":MessageRegistry.register", COMMS + ":MessageRegistry.get_encoder", COMMS + ":MessageRegistry.get_decoder",
+       X1F + ":ExtendedMessage.message_id"] + [m + ":" + c + ".message_id" for m, c in (
+           (XERR, "AcErrorInformationMessage"), (XERR, "AcErrorInformationRequest"), (XABL, "AcAbilityMessage"),
+           (XABL, "AcAbilityRequest"), (XZN, "ZoneNamesMessage"), (XZN, "ZoneNamesRequest"), (XVER, "ConsoleVersionMessage"),
+           (XVER, "ConsoleVersionRequest"), (XQT, "QuickTimerMessage"))], kind="frame")
 def x1f_registry_wiring(h):
     """The parametric wrapper proof composes with the per-codec sets only if the registry registers every
     sub-codec under exactly the id its messages report (and the vendor document assigns)."""
